@@ -680,6 +680,12 @@ def run_case(contract, values, log=None, source=None):
             olds[f'old_{n}'] = snapshot(v, memo)
         target = real_callable(contract.target)
         install_callee_contracts(contract, patches, log, source)
+        if getattr(contract, 'native_setup', None):
+            try:
+                contract.native_setup(values, patches, source, log)
+            except HarnessGap:
+                out['requires_ok'] = False
+                return out
         names = contract.call if contract.call is not None else list(contract.inputs.keys())
         args = [values[n] for n in names]
         kwargs = {p: values[n] for p, n in contract.kwargs.items()}
